@@ -31,34 +31,76 @@
 (*                                                                         *)
 (* Dev = {} is the design. Mutation seeds / as-implemented deviations:     *)
 (*   "ack_before_quorum"         ack as soon as the leader appended        *)
-(*   "truncate_past_down_member" truncation looks only at the Match of the *)
-(*                               ACTIVE members (as implemented in         *)
-(*                               forceDeleteEntryLog / genProposeData) and *)
-(*                               a lagging member then receives a raft     *)
-(*                               snapshot whose payload is the literal     *)
-(*                               "snapshot" (no data)                      *)
+(*   "truncate_past_down_member" the FORCED clean exists: once the outage  *)
+(*                               timer of the leader has run for more than *)
+(*                               TolerateTime the clean looks only at the  *)
+(*                               Match of the ACTIVE members (as           *)
+(*                               implemented in forceDeleteEntryLog /      *)
+(*                               genProposeData) and a lagging member then *)
+(*                               receives a raft snapshot whose payload is *)
+(*                               the literal "snapshot" (no data)          *)
+(*   "outage_timer_per_group"    as implemented (F-C05-2): one outage      *)
+(*                               timer per leader for the whole group; it  *)
+(*                               keeps running when the member that armed  *)
+(*                               it is back and ANOTHER one (or the same   *)
+(*                               one again) is away at the next tick: that *)
+(*                               member is skipped by the forced clean     *)
+(*                               after an absence of less than             *)
+(*                               TolerateTime (rolling outages)            *)
+(*   "outage_timer_not_reset"    a tick that sees every member present     *)
+(*                               leaves tolStart armed (mutation seed; has *)
+(*                               an effect only together with the forced   *)
+(*                               clean): the next outage, however short,   *)
+(*                               goes straight to the forced clean         *)
 (*   "restart_skips_replay"      appliedIndex := commit without replay     *)
 (*   "ack_ignores_apply_error"   dealCommitData: the deferred ack carries  *)
 (*                               the error evaluated BEFORE the apply, a   *)
 (*                               failed local apply is acknowledged        *)
 (*                                                                         *)
+(* TIME. deleteEntryLogPeriodically: every node runs a one-minute ticker; *)
+(* on the raft leader that has a snapshot the tick body is                 *)
+(* deleteEntryLog -> forceDeleteEntryLog:                                  *)
+(*   a member is away : tolerateStartTime.CompareAndSwap(0, now); if       *)
+(*                      now - tolerateStartTime > clear-entryLog-tolerate- *)
+(*                      time: FORCED clean (ClearEntryLog computed from    *)
+(*                      the active members only), tolerateStartTime := 0   *)
+(*   everybody present: tolerateStartTime := 0 (then the ordinary clean,   *)
+(*                      action Truncate)                                   *)
+(* now is a small counter whose unit is the ticker period. Tick(l) is the *)
+(* NEXT tick of leader l: one period has passed since its previous one     *)
+(* (now' = now + 1, tickers are periodic: a leader cannot let a period     *)
+(* pass without looking). Time is counted only while it matters (a member  *)
+(* is away or an outage timer is armed).                                   *)
+(* tolStart[n] is the in-memory tolerateStartTime of node n (0 = unset;    *)
+(* lost by Crash, kept across a change of role: a node that is not leader  *)
+(* returns from deleteEntryLog before it looks at the members). since[n]   *)
+(* is the period in which a down node went down (-1 = up), skipped[n]      *)
+(* remembers whether a forced clean ignored n and whether n had then been  *)
+(* away for more than TolerateTime ("long") or not ("short").              *)
+(* MaxTime = 0 switches the clock off (no Tick).                           *)
+(*                                                                         *)
 (* The specification is also the fault-schedule generator: hist records    *)
 (* the client / fault actions (Write, Kill leader|follower, Restart,       *)
-(* Flush, Query); ReplicationMC exports them in simulation mode.           *)
+(* Flush, Query, and with the clock on Tick); ReplicationMC                *)
+(* exports them in simulation mode, and exports the counterexample of      *)
+(* the timer deviations as DIRECTED schedule.                              *)
 (***************************************************************************)
 EXTENDS Integers, Sequences, FiniteSets, TLC
 
 CONSTANTS Nodes, NoNode, MaxTerm, MaxEntries, MaxWrites, NCells, MaxCrashes, MaxTrunc, MaxHist, Gen, Dev,
+          TolerateTime, MaxTime,               \* clear-entryLog-tolerate-time and the horizon, in ticker periods
           CrashOdds, QueryOdds, FlushOdds      \* generator only (Gen): a crash / a query is taken with probability 1/odds when enabled
 
 VARIABLES up, role, term, log, durable, commit, shAp, data, snap, first,
           prop, acked, ackIdx, ackEnt, ackTerm, issued,
-          glog, clearIdx, ntrunc, crashes, hist
+          glog, clearIdx, ntrunc, crashes, hist,
+          now, tolStart, since, skipped
 
 nodeVars == <<up, role, term, log, durable, commit, shAp, data, snap, first>>
 cliVars  == <<prop, acked, ackIdx, ackEnt, ackTerm, issued>>
-vars == <<nodeVars, cliVars, glog, clearIdx, ntrunc, crashes, hist>>
-view == <<nodeVars, cliVars, glog, clearIdx, ntrunc, crashes>>
+timeVars == <<now, tolStart, since, skipped>>
+vars == <<nodeVars, cliVars, glog, clearIdx, ntrunc, crashes, hist, timeVars>>
+view == <<nodeVars, cliVars, glog, clearIdx, ntrunc, crashes, timeVars>>
 
 W == 1..MaxWrites
 Cells == 1..NCells
@@ -79,6 +121,9 @@ FoldR(d, l, i, to) == IF i > to THEN d ELSE FoldR(ApplyEnt(d, l[i]), l, i + 1, t
 Down == {n \in Nodes : ~up[n]}
 Inflight == \E w \in W : prop[w] # NoNode
 
+\* generator only: an enabled step is taken with probability 1/odds (odds <= 1: always; the salt keeps TLC from caching the draw)
+Take(odds, salt) == IF odds <= 1 THEN TRUE ELSE RandomElement(1..(odds + 0 * salt)) = 1
+
 Rec(a, w, c, r) == [a |-> a, w |-> w, c |-> c, r |-> r, f |-> IF Inflight THEN 1 ELSE 0]
 Log(rec) == IF Gen /\ Len(hist) < MaxHist THEN Append(hist, rec) ELSE hist
 
@@ -90,6 +135,8 @@ Init ==
   /\ prop = [w \in W |-> NoNode] /\ acked = {} /\ ackIdx = [w \in W |-> 0] /\ ackEnt = [w \in W |-> NoEnt]
   /\ ackTerm = [w \in W |-> 0] /\ issued = {}
   /\ glog = << >> /\ clearIdx = 0 /\ ntrunc = 0 /\ crashes = 0 /\ hist = << >>
+  /\ now = 0 /\ tolStart = [n \in Nodes |-> 0] /\ since = [n \in Nodes |-> -1]
+  /\ skipped = [n \in Nodes |-> "no"]
 
 Elect(n) ==
   /\ up[n]
@@ -100,7 +147,7 @@ Elect(n) ==
             /\ nt <= MaxTerm
             /\ term' = [m \in Nodes |-> IF m \in Q THEN nt ELSE term[m]]
             /\ role' = [m \in Nodes |-> IF m = n THEN "L" ELSE IF m \in Q THEN "F" ELSE role[m]]
-  /\ UNCHANGED <<up, log, durable, commit, shAp, data, snap, first, cliVars, glog, clearIdx, ntrunc, crashes, hist>>
+  /\ UNCHANGED <<up, log, durable, commit, shAp, data, snap, first, cliVars, glog, clearIdx, ntrunc, crashes, hist, timeVars>>
 
 \* first attempt of write w, or ClientRetry: the earlier attempt failed (its proposer died: prop reset by Crash; or lost leadership)
 Propose(l, w) ==
@@ -112,12 +159,12 @@ Propose(l, w) ==
   /\ prop' = [prop EXCEPT ![w] = l]
   /\ issued' = issued \cup {w}
   /\ hist' = IF w \in issued THEN hist ELSE Log(Rec("Write", w, CellOf(w), "-"))
-  /\ UNCHANGED <<up, role, term, durable, commit, shAp, data, snap, first, acked, ackIdx, ackEnt, ackTerm, glog, clearIdx, ntrunc, crashes>>
+  /\ UNCHANGED <<up, role, term, durable, commit, shAp, data, snap, first, acked, ackIdx, ackEnt, ackTerm, glog, clearIdx, ntrunc, crashes, timeVars>>
 
 Persist(n) ==
   /\ up[n] /\ durable[n] < Len(log[n])
   /\ durable' = [durable EXCEPT ![n] = Len(log[n])]
-  /\ UNCHANGED <<up, role, term, log, commit, shAp, data, snap, first, cliVars, glog, clearIdx, ntrunc, crashes, hist>>
+  /\ UNCHANGED <<up, role, term, log, commit, shAp, data, snap, first, cliVars, glog, clearIdx, ntrunc, crashes, hist, timeVars>>
 
 Replicate(l, f) ==
   /\ l # f /\ up[l] /\ up[f] /\ role[l] = "L" /\ term[l] >= term[f]
@@ -133,7 +180,7 @@ Replicate(l, f) ==
         /\ commit' = [commit EXCEPT ![f] = ncom]
   /\ term' = [term EXCEPT ![f] = term[l]]
   /\ role' = [role EXCEPT ![f] = "F"]
-  /\ UNCHANGED <<up, shAp, data, snap, first, cliVars, glog, clearIdx, ntrunc, crashes, hist>>
+  /\ UNCHANGED <<up, shAp, data, snap, first, cliVars, glog, clearIdx, ntrunc, crashes, hist, timeVars>>
 
 \* the follower needs an entry the leader has truncated: MsgSnap with payload "snapshot" - index and term move, data does not
 SnapInstall(l, f) ==
@@ -147,7 +194,7 @@ SnapInstall(l, f) ==
   /\ first' = [first EXCEPT ![f] = first[l]]
   /\ term' = [term EXCEPT ![f] = term[l]]
   /\ role' = [role EXCEPT ![f] = "F"]
-  /\ UNCHANGED <<up, data, cliVars, glog, clearIdx, ntrunc, crashes, hist>>
+  /\ UNCHANGED <<up, data, cliVars, glog, clearIdx, ntrunc, crashes, hist, timeVars>>
 
 Commit(l) ==
   /\ up[l] /\ role[l] = "L"
@@ -159,20 +206,20 @@ Commit(l) ==
      IN /\ C # {}
         /\ commit' = [commit EXCEPT ![l] = MaxOf(C)]
         /\ glog' = IF MaxOf(C) > Len(glog) THEN SubSeq(log[l], 1, MaxOf(C)) ELSE glog
-  /\ UNCHANGED <<up, role, term, log, durable, shAp, data, snap, first, cliVars, clearIdx, ntrunc, crashes, hist>>
+  /\ UNCHANGED <<up, role, term, log, durable, shAp, data, snap, first, cliVars, clearIdx, ntrunc, crashes, hist, timeVars>>
 
 Apply(n) ==
   /\ up[n] /\ shAp[n] < commit[n]
   /\ data' = [data EXCEPT ![n] = ApplyEnt(@, log[n][shAp[n] + 1])]
   /\ shAp' = [shAp EXCEPT ![n] = @ + 1]
-  /\ UNCHANGED <<up, role, term, log, durable, commit, snap, first, cliVars, glog, clearIdx, ntrunc, crashes, hist>>
+  /\ UNCHANGED <<up, role, term, log, durable, commit, snap, first, cliVars, glog, clearIdx, ntrunc, crashes, hist, timeVars>>
 
 \* as implemented: an apply error is logged, the applied index moves on and (deferred ack, error evaluated early) the write is acknowledged
 ApplyFail(n) ==
   /\ "ack_ignores_apply_error" \in Dev
   /\ up[n] /\ shAp[n] < commit[n]
   /\ shAp' = [shAp EXCEPT ![n] = @ + 1]
-  /\ UNCHANGED <<up, role, term, log, durable, commit, data, snap, first, cliVars, glog, clearIdx, ntrunc, crashes, hist>>
+  /\ UNCHANGED <<up, role, term, log, durable, commit, data, snap, first, cliVars, glog, clearIdx, ntrunc, crashes, hist, timeVars>>
 
 Ack(l, w) ==
   /\ up[l] /\ prop[w] = l /\ w \notin acked
@@ -184,34 +231,32 @@ Ack(l, w) ==
   /\ ackTerm' = [ackTerm EXCEPT ![w] = term[l]]
   /\ acked' = acked \cup {w}
   /\ prop' = [prop EXCEPT ![w] = NoNode]
-  /\ UNCHANGED <<nodeVars, issued, glog, clearIdx, ntrunc, crashes, hist>>
+  /\ UNCHANGED <<nodeVars, issued, glog, clearIdx, ntrunc, crashes, hist, timeVars>>
 
 FlushAdvance(n) ==
   /\ up[n] /\ snap[n] < shAp[n]
-  /\ Gen => RandomElement(1..(FlushOdds + 0 * crashes)) = 1
+  /\ Gen => Take(FlushOdds, crashes)
   /\ snap' = [snap EXCEPT ![n] = shAp[n]]
   /\ hist' = Log(Rec("Flush", 0, 0, "-"))
-  /\ UNCHANGED <<up, role, term, log, durable, commit, shAp, data, first, cliVars, glog, clearIdx, ntrunc, crashes>>
+  /\ UNCHANGED <<up, role, term, log, durable, commit, shAp, data, first, cliVars, glog, clearIdx, ntrunc, crashes, timeVars>>
 
 Truncate(l) ==
   /\ up[l] /\ role[l] = "L" /\ ntrunc < MaxTrunc
   /\ snap[l] > first[l] /\ snap[l] > clearIdx
-  /\ IF "truncate_past_down_member" \in Dev
-       THEN \A n \in Nodes : up[n] => durable[n] >= snap[l]       \* Match of the active members only
-       ELSE \A n \in Nodes : snap[n] >= snap[l]                   \* every member, up or down, has flushed past it
+  /\ \A n \in Nodes : snap[n] >= snap[l]                          \* every member, up or down, has flushed past it
   /\ clearIdx' = snap[l]
   /\ first' = [first EXCEPT ![l] = snap[l]]
   /\ ntrunc' = ntrunc + 1
-  /\ UNCHANGED <<up, role, term, log, durable, commit, shAp, data, snap, cliVars, glog, crashes, hist>>
+  /\ UNCHANGED <<up, role, term, log, durable, commit, shAp, data, snap, cliVars, glog, crashes, hist, timeVars>>
 
 ApplyClear(n) ==
-  /\ up[n] /\ first[n] < clearIdx /\ commit[n] >= clearIdx
+  /\ up[n] /\ first[n] < clearIdx /\ shAp[n] >= clearIdx      \* ClearEntryLog(i) is itself an entry behind i: applied in log order
   /\ first' = [first EXCEPT ![n] = clearIdx]
-  /\ UNCHANGED <<up, role, term, log, durable, commit, shAp, data, snap, cliVars, glog, clearIdx, ntrunc, crashes, hist>>
+  /\ UNCHANGED <<up, role, term, log, durable, commit, shAp, data, snap, cliVars, glog, clearIdx, ntrunc, crashes, hist, timeVars>>
 
 Crash(n) ==
   /\ up[n] /\ crashes < MaxCrashes
-  /\ Gen => RandomElement(1..((IF role[n] = "L" THEN CrashOdds \div 3 ELSE CrashOdds) + 0 * crashes)) = 1
+  /\ Gen => Take(IF role[n] = "L" THEN CrashOdds \div 3 ELSE CrashOdds, crashes)
   /\ Cardinality(Down \cup {n}) * 2 < Cardinality(Nodes)
   /\ up' = [up EXCEPT ![n] = FALSE]
   /\ log' = [log EXCEPT ![n] = SubSeq(@, 1, durable[n])]
@@ -219,7 +264,9 @@ Crash(n) ==
   /\ prop' = [w \in W |-> IF prop[w] = n THEN NoNode ELSE prop[w]]
   /\ crashes' = crashes + 1
   /\ hist' = Log(Rec("Kill", 0, 0, IF role[n] = "L" THEN "leader" ELSE "follower"))
-  /\ UNCHANGED <<term, durable, commit, shAp, data, snap, first, acked, ackIdx, ackEnt, ackTerm, issued, glog, clearIdx, ntrunc>>
+  /\ since' = [since EXCEPT ![n] = now]
+  /\ tolStart' = [tolStart EXCEPT ![n] = 0]           \* tolerateStartTime lives in memory
+  /\ UNCHANGED <<term, durable, commit, shAp, data, snap, first, acked, ackIdx, ackEnt, ackTerm, issued, glog, clearIdx, ntrunc, now, skipped>>
 
 Restart(n) ==
   /\ ~up[n]
@@ -229,17 +276,57 @@ Restart(n) ==
        THEN data' = data
        ELSE data' = [data EXCEPT ![n] = FoldR(@, log[n], snap[n] + 1, commit[n])]
   /\ hist' = Log(Rec("Restart", 0, 0, "-"))
-  /\ UNCHANGED <<role, term, log, durable, commit, snap, first, cliVars, glog, clearIdx, ntrunc, crashes>>
+  /\ since' = [since EXCEPT ![n] = -1]
+  /\ UNCHANGED <<role, term, log, durable, commit, snap, first, cliVars, glog, clearIdx, ntrunc, crashes, now, tolStart, skipped>>
+
+\* Progress[n].Match >= i on leader l: n holds l's log up to i durably
+Matched(l, n, i) == durable[n] >= i /\ Len(log[n]) >= i /\ SubSeq(log[n], 1, i) = SubSeq(log[l], 1, i)
+
+\* The next tick of deleteEntryLogPeriodically on a leader that has a snapshot (deleteEntryLog -> forceDeleteEntryLog): one
+\* ticker period has passed since its previous tick. Counted only while it matters (a member is away or an outage timer is armed).
+ClockOn == MaxTime > 0
+Tick(l) ==
+  /\ ClockOn /\ now < MaxTime /\ up[l] /\ role[l] = "L" /\ snap[l] > 0
+  /\ Down # {} \/ \E n \in Nodes : tolStart[n] # 0
+  /\ now' = now + 1
+  /\ LET t == now + 1 IN
+     IF Down = {}
+       THEN \* everybody present: the outage timer is reset
+            /\ tolStart' = [tolStart EXCEPT ![l] = IF "outage_timer_not_reset" \in Dev THEN @ ELSE 0]
+            /\ hist' = Log(Rec("Tick", 0, 0, "healthy"))
+            /\ UNCHANGED <<first, clearIdx, ntrunc, skipped>>
+       ELSE LET start0 == IF tolStart[l] = 0 THEN t ELSE tolStart[l]         \* CompareAndSwap(0, now)
+                \* a member that is away now but was present at the tick that armed the timer (it went down later): its own
+                \* absence starts now. As implemented there is ONE timer per leader for the whole group (F-C05-2).
+                fresh == \E n \in Down : since[n] >= start0
+                start == IF fresh /\ "outage_timer_per_group" \notin Dev THEN t ELSE start0 IN
+            IF "truncate_past_down_member" \in Dev /\ t - start > TolerateTime
+              THEN \* as implemented: the leader gives up on the absent members (F-C05-1)
+                   /\ tolStart' = [tolStart EXCEPT ![l] = 0]
+                   /\ hist' = Log(Rec("Tick", 0, 0, "forced"))
+                   /\ IF /\ ntrunc < MaxTrunc /\ snap[l] > first[l] /\ snap[l] > clearIdx
+                         \* the ordinary guard, asked of the ACTIVE members only (Progress[n].Match; n has flushed past it)
+                         /\ \A n \in Nodes : up[n] => (Matched(l, n, snap[l]) /\ snap[n] >= snap[l])
+                        THEN /\ clearIdx' = snap[l]
+                             /\ first' = [first EXCEPT ![l] = snap[l]]
+                             /\ ntrunc' = ntrunc + 1
+                             /\ skipped' = [n \in Nodes |-> IF up[n] \/ skipped[n] = "short" THEN skipped[n]
+                                                             ELSE IF t - since[n] > TolerateTime THEN "long" ELSE "short"]
+                        ELSE UNCHANGED <<first, clearIdx, ntrunc, skipped>>
+              ELSE /\ tolStart' = [tolStart EXCEPT ![l] = start]
+                   /\ hist' = Log(Rec("Tick", 0, 0, "away"))
+                   /\ UNCHANGED <<first, clearIdx, ntrunc, skipped>>
+  /\ UNCHANGED <<up, role, term, log, durable, commit, shAp, data, snap, cliVars, glog, crashes, since>>
 
 Query ==
-  /\ Gen /\ Len(hist) < MaxHist /\ RandomElement(1..(QueryOdds + 0 * crashes)) = 1
+  /\ Gen /\ QueryOdds > 0 /\ Len(hist) < MaxHist /\ Take(QueryOdds, crashes)
   /\ Len(hist) > 0 /\ hist[Len(hist)].a # "Query"
   /\ hist' = Append(hist, Rec("Query", 0, 0, "-"))
-  /\ UNCHANGED <<nodeVars, cliVars, glog, clearIdx, ntrunc, crashes>>
+  /\ UNCHANGED <<nodeVars, cliVars, glog, clearIdx, ntrunc, crashes, timeVars>>
 
 Next ==
   \/ \E n \in Nodes : \/ Elect(n) \/ Persist(n) \/ Commit(n) \/ Apply(n) \/ ApplyFail(n) \/ FlushAdvance(n)
-                      \/ Truncate(n) \/ ApplyClear(n) \/ Crash(n) \/ Restart(n)
+                      \/ Truncate(n) \/ ApplyClear(n) \/ Crash(n) \/ Restart(n) \/ Tick(n)
   \/ \E l, f \in Nodes : Replicate(l, f) \/ SnapInstall(l, f)
   \/ \E l \in Nodes, w \in W : Propose(l, w) \/ Ack(l, w)
   \/ Query
@@ -262,6 +349,16 @@ TruncationSafe ==
   /\ \A l, n \in Nodes : first[l] <= shAp[n]
   /\ \A n \in Nodes : first[n] <= snap[n]
 
+\* a forced clean that skips a member implies that the member has been continuously away for more than TolerateTime
+ForcedCleanOnlyAfterTolerate == \A n \in Nodes : skipped[n] # "short"
+\* a tick that sees every member present resets the outage timer of that leader
+HealthyTickResets == [][\A l \in Nodes : (Tick(l) /\ Down = {}) => tolStart'[l] = 0]_vars
+\* TruncationSafe up to F-C05-1: only a member that a forced clean skipped after more than TolerateTime may lack (in its own
+\* log) an entry that some node has deleted
+ShortOutageKeepsLog == \A l, n \in Nodes : first[l] > durable[n] => skipped[n] = "long"
+\* the outage timer is armed only while the clock runs, and never in the future
+TimerSane == \A n \in Nodes : tolStart[n] <= now /\ since[n] <= now /\ (up[n] <=> since[n] = -1)
+
 \* state machine safety at the level of the shards + last-write-wins of the acknowledged writes on every caught-up replica
 CaughtUp(n) == up[n] /\ \A w \in acked : shAp[n] >= ackIdx[w]
 AckedMax(c) == LET S == {w \in acked : CellOf(w) = c} IN IF S = {} THEN 0 ELSE MaxOf(S)
@@ -270,6 +367,13 @@ ReadAnyReplica ==
      /\ shAp[n] <= Len(glog)
      /\ data[n] = FoldR([c \in Cells |-> 0], glog, 1, shAp[n])          \* which replica answers does not matter
      /\ \A c \in Cells : data[n][c] >= AckedMax(c)                      \* at least the latest acknowledged write of the cell
+
+\* ReadAnyReplica up to F-C05-1 (the as-implemented model must still satisfy this one)
+ShortOutageReadAnyReplica ==
+  \A n \in Nodes : (CaughtUp(n) /\ skipped[n] # "long") =>
+     /\ shAp[n] <= Len(glog)
+     /\ data[n] = FoldR([c \in Cells |-> 0], glog, 1, shAp[n])
+     /\ \A c \in Cells : data[n][c] >= AckedMax(c)
 
 CommittedPrefix == \A n \in Nodes : commit[n] <= Len(glog) /\ IsPfx(SubSeq(log[n], 1, commit[n]), glog)
 MinorityDown == Cardinality(Down) * 2 < Cardinality(Nodes)
